@@ -2,6 +2,7 @@ CONSTANTS
   FW = {1, 2, 3}
   Rec = {1, 2, 3}
   Thread = {1, 2}
+  Orig = {1, 2}
   Deviations = {}
   Depth = 6
 SPECIFICATION GenSpec
